@@ -13,7 +13,7 @@ import (
 
 // C15 - the outcome of an RPC is independent of earlier traffic.
 
-const ruleC15 = "rapid draws a configuration, a history of 1..12 earlier RPCs on ONE long-lived Transcoder (valid RPCs of every form incl. REST targets with varying path variables; requests failing validation; bodies cut mid-message; messages over the size limit; corrupt compressed payloads; backends that panic, violate their protocol, answer in the wrong codec or keep writing after the end) and a probe RPC. The history is replayed twice: with the instrumented buffer pool (tag verif: deterministic LIFO reuse, poison-on-release, double-release / live-reuse / write-after-release bookkeeping) and with the regular sync.Pool under GOMAXPROCS=1. Oracle: after every step the canonical outcome of the probe on the used Transcoder (client status, outcome, messages, headers, trailers; backend-observed messages) equals the probe's outcome on a freshly built Transcoder, and the pool bookkeeping reports no double release, no hand-out of a live buffer and no broken poison. Non-trivial = the history contains a failing request that used compression or pooled buffers before the probe; distinct by hash(config, history, probe)."
+const ruleC15 = "rapid draws a configuration, a history of 1..12 earlier RPCs on ONE long-lived Transcoder (valid RPCs of every form incl. REST targets with varying path variables; requests failing validation; bodies cut mid-message; messages over the size limit; corrupt compressed payloads; backends that panic, violate their protocol, answer in the wrong codec, keep writing after the end or close the request body twice; RPCs of a second service that has options and a type resolver of its own) and a probe RPC. The history is replayed twice: with the instrumented buffer pool (tag verif: deterministic LIFO reuse, poison-on-release, double-release / live-reuse / write-after-release bookkeeping) and with the regular sync.Pool under GOMAXPROCS=1. Oracle: after every step the canonical outcome of the probe on the used Transcoder (client status, outcome, messages, headers, trailers; backend-observed messages) equals the probe's outcome on a freshly built Transcoder, and the pool bookkeeping reports no double release, no hand-out of a live buffer and no broken poison. Non-trivial = the history contains a failing request that used compression or pooled buffers before the probe; distinct by hash(config, history, probe)."
 
 type histCase struct {
 	Config  Config     `json:"config"`
